@@ -290,7 +290,14 @@ func (lb *LoadBalancer) setupCircuitBreaker(cfg *config.Config) {
 
 func (lb *LoadBalancer) startHealthChecks() {
 	if lb.healthChecks.activeEnabled {
-		go lb.startActiveHealthChecks()
+		// The checker goroutine is counted in the wait group before it starts. The probe
+		// goroutines it registers later are then always added while the counter is non-zero,
+		// which is what sync.WaitGroup requires for an Add concurrent with Stop's Wait.
+		lb.healthCheckWg.Add(1)
+		go func() {
+			defer lb.healthCheckWg.Done()
+			lb.startActiveHealthChecks()
+		}()
 		logging.L().Info().Dur("interval", lb.healthChecks.activeInterval).Msg("active health checks enabled")
 	} else {
 		logging.L().Info().Msg("active health checks disabled")
@@ -318,7 +325,6 @@ func (lb *LoadBalancer) startActiveHealthChecks() {
 		select {
 		case <-lb.ctx.Done():
 			logging.L().Info().Msg("stopping active health checks")
-			lb.healthCheckWg.Wait()
 			return
 		case <-ticker.C:
 			lb.checkBackendsHealth()
